@@ -132,6 +132,10 @@ func (r *rule) compile() error {
 			// Escape some regexp special chars that have no meaning
 			// in golang's filepath.Match
 			regStr += `\` + string(ch)
+		} else if strings.ContainsRune("+()|{}^", ch) {
+			// Escape the remaining regexp metacharacters: they are ordinary
+			// characters in an ignore pattern (and in file names).
+			regStr += `\` + string(ch)
 		} else if ch == '\\' {
 			// escape next char. Note that a trailing \ in the pattern
 			// will be left alone (but need to escape it)
